@@ -779,6 +779,59 @@ def h_get_function(eng):
     eng.prove("fn.translated_once_per_function", z3.BoolVal(again is fobj and len(sublog) == len(seq) + 1))
 
 
+def h_declaration_values_of_function_variables(eng):
+    """tree.add_variable_value_statements (what turns `output Real y := 0;` / `protected Real d := 2*x;` into statements of the
+    function): Modelica evaluates declaration assignments, in declaration order, BEFORE the algorithm section, so -- get_function
+    giving the statement list sequential-assignment semantics (fn.*) -- the value statements of outputs and protected variables must
+    come first, in declaration order, followed by the algorithm's own statements in their order; the declaration value of an INPUT is
+    only a default for an argument that is not passed and must never be executed before a statement of the body."""
+    base_modules(eng)
+    eng.ext_modules.pop("pymoca.tree", None)      # the real module, not the stub the generator harnesses import in its place
+    A = AstFactory(eng)
+    f = eng.find_function("pymoca.tree", "add_variable_value_statements")
+    KINDS = [("input", False), ("input", True), ("output", True), ("protected", True), ("output", False), ("protected", True)]
+    pick = [eng.choice(2) for _ in KINDS]
+    used = [k for k, p_ in zip(KINDS, pick) if p_]
+    if not used:
+        from pyvc.values import PathEnd
+        raise PathEnd()
+    eng.input("declarations", ["%s%s" % (k, " := value" if v else "") for k, v in used])
+    node = A.new("Class", name="f", type="function")
+    syms, vals = [], []
+    for j, (kind, has_value) in enumerate(used):
+        val = A.prim(10 + j) if has_value else None
+        sy = A.new("Symbol", name="s%d" % j, prefixes=VList([] if kind == "protected" else [kind]))
+        if has_value:
+            sy.fields["value"] = val
+        ops.setitem(eng, node.fields["symbols"], "s%d" % j, sy)
+        syms.append(sy)
+        vals.append(val)
+    nbody = eng.choice(3)
+    body = [A.new("AssignmentStatement", left=VList([A.ref("s0")]), right=A.prim(100 + j)) for j in range(nbody)]
+    node.fields["statements"] = VList(list(body))
+    eng.call(f, [node], {})
+    eng.cover("declvalue.done")
+    out = node.fields["statements"].items
+    synthetic = [st for st in out if not any(st is b for b in body)]
+    def of(st):
+        l = st.fields.get("left")
+        l = l.items[0] if isinstance(l, VList) and l.items else None
+        for j, sy in enumerate(syms):
+            if l is sy:
+                return j
+        return None
+    early = [st for st in out[:out.index(body[0])]] if body else list(out)
+    want_first = [j for j, (kind, hv) in enumerate(used) if hv and kind != "input"]
+    got_first = [of(st) for st in early]
+    eng.prove("declvalue.outputs_and_protected_variables_get_their_declaration_value_before_the_body_in_declaration_order",
+              z3.BoolVal([j for j in got_first if j in want_first] == want_first), before_the_body=got_first, expected=want_first)
+    eng.prove("declvalue.an_input_default_is_never_executed_before_the_body", z3.BoolVal(not any(j is not None and used[j][0] == "input" for j in got_first) or not body))
+    eng.prove("declvalue.body_statements_keep_their_order", z3.BoolVal([st for st in out if any(st is b for b in body)] == body))
+    eng.prove("declvalue.each_value_becomes_the_right_hand_side_of_its_own_statement",
+              z3.BoolVal(all(of(st) is not None and st.fields.get("right") is vals[of(st)] for st in synthetic) and
+                         sorted(of(st) for st in synthetic if used[of(st)][0] != "input") == want_first))
+
+
 def h_equation_shapes(eng):
     """shape adaptation in exitEquation: truncation of a function's outputs, transposition"""
     gm = install(eng)
@@ -1047,13 +1100,13 @@ def h_builtin_functions(eng):
 HARNESSES = [("Generator.exitExpression/operators", h_operator_dispatch), ("Generator.exitIfExpression", h_if_expression),
              ("Generator.exitIfEquation", h_if_equation), ("Generator.exitEquation", h_equation), ("ForLoop.__init__", h_for_range),
              ("Generator.exitForEquation", h_for_equation), ("Generator.exitForEquation with a delayed symbol", h_for_equation_with_delayed_symbol),
-             ("Generator.exitForStatement", h_for_statement),
+             ("Generator.exitForStatement", h_for_statement), ("tree.add_variable_value_statements (declaration values of function variables)", h_declaration_values_of_function_variables),
              ("Generator.exitIfStatement+exitAssignmentStatement", h_assignment_and_if_statement),
              ("Generator.get_function", h_get_function), ("Generator.exitEquation/shapes", h_equation_shapes),
              ("Generator.get_derivative/expression", h_derivative_of_expression),
              ("Generator.exitExpression/built-in array functions, der, calls; exitArray; exitPrimary", h_builtin_functions)]
 EXPECTED_COVER = {"op.done", "ifexpr.done", "ifeq.done", "eq.done", "range.done", "forloop.empty", "forloop.mapped", "forstmt.empty", "forstmt.mapped",
-                  "ifstmt.done", "fn.done", "eqshape.done", "derexpr.done", "fordelay.mapped", "fordelay.empty"} | {"builtin." + c for c in ("der", "transpose", "sum", "linspace", "fill1", "fill2", "zeros1", "zeros2", "ones1", "ones2", "identity", "cat", "user-function", "array", "primary")}
+                  "ifstmt.done", "fn.done", "eqshape.done", "derexpr.done", "fordelay.mapped", "fordelay.empty", "declvalue.done"} | {"builtin." + c for c in ("der", "transpose", "sum", "linspace", "fill1", "fill2", "zeros1", "zeros2", "ones1", "ones2", "identity", "cat", "user-function", "array", "primary")}
 BOUNDED = True
 LEVEL = "proof"
 TRUSTED = ["pyvc VC generator", "z3 5.1.0",
